@@ -77,6 +77,15 @@ def check_case(ctx, case):
     rb = numpy.array(case["rates_b"], dtype=float).reshape(ra.shape)
     fa = S.forecast(region, name="A")
     fb = S.forecast(region, rates=rb, name="B")
+    pre = case.get("prescale")
+    if pre:
+        # the forecasts carry their own scale factors (powers of two: exact), set through scale(): the tests work with the
+        # scaled rates, whatever the per-day conversion of scale=True does on top
+        fa.scale(float(pre[0]))
+        fb.scale(float(pre[1]))
+        ra = ra * float(pre[0])
+        rb = rb * float(pre[1])
+        ctx.count("cases_with_prescaled_forecasts")
     alpha = case["alpha"]
     scale = case["scale"]
     obs = S.obs
@@ -95,7 +104,8 @@ def check_case(ctx, case):
     # ---------------- paired T
     res = {}
     for tag, f1, f2, dd, n1, n2 in (("AB", fa, fb, d, na, nb), ("BA", fb, fa, [-v for v in d], nb, na), ("AA", fa, fa, [0.0] * N, na, na)):
-        o = call(P.paired_t_test, f1, f2, cat(), alpha=alpha, scale=scale)
+        # AB by keyword, BA and AA positionally (documented order: forecast, benchmark, catalog, alpha, scale)
+        o = call(P.paired_t_test, f1, f2, cat(), alpha=alpha, scale=scale) if tag == "AB" else call(P.paired_t_test, f1, f2, cat(), alpha, scale)
         if not o.ok:
             ctx.unexpected(o, "paired_t_test")
             continue
@@ -223,7 +233,7 @@ def check_case(ctx, case):
                     ctx.violation("binaryT:t_statistic_wrong", {"got": gt, "want": t, "n_active": Na})
                 if not (rel(glo, lo, 1e-6, 1e-9 * sc) and rel(ghi, hi, 1e-6, 1e-9 * sc)):
                     ctx.violation("binaryT:interval_wrong", {"got": [glo, ghi], "want": [lo, hi]})
-        o2 = call(Bn.binary_paired_t_test, fb, fa, cat(), alpha=alpha, scale=scale)
+        o2 = call(Bn.binary_paired_t_test, fb, fa, cat(), alpha, scale)     # positionally
         if o2.ok and abs(float(o2.value.observed_statistic) + got) > 1e-9 * sc + 1e-12:
             ctx.violation("binaryT:swap_does_not_negate_gain", {"ab": got, "ba": float(o2.value.observed_statistic)})
 
@@ -264,6 +274,8 @@ def cases(draw, max_events=80):
         c["obs"].append(list(draw(st.sampled_from(extra))))
     c["alpha"] = draw(st.sampled_from([0.05, 0.01, 0.1, 0.5, 0.001, 0.9]))
     c["scale"] = draw(st.booleans())
+    if draw(st.integers(0, 2)) == 0:
+        c["prescale"] = [draw(st.sampled_from([0.5, 2.0, 4.0])), draw(st.sampled_from([0.25, 1.0, 2.0]))]
     return c
 
 
